@@ -102,15 +102,15 @@ func computeLoops(fn *ssa.Function) *LoopInfo {
 // ---------- effects ----------
 
 type Effect struct {
-	key   string
-	base  ssa.Value // nil: unknown base (whole array)
-	param int       // index in fn.Params when base is a parameter, else -1
-	all   bool
+	key      string
+	base     ssa.Value // nil: unknown base (whole array)
+	param    int       // index in fn.Params when base is a parameter, else -1
+	all      bool
 	origins  []*ssa.Function // with all: the called functions whose unknown effects this stands for (nil entry: external)
-	dyn      bool   // with all: may run code chosen at run time (function values, open interface calls, recursion)
-	pkg      string // with all: package of the repo function whose body gave rise to the effect
-	ghost    bool   // with all: specification-only (ghost) state may change too (explicit "modifies *" of a contract)
-	arrField int    // >0: the location is the memory block arrBase(base, arrField-1) of an array-typed field
+	dyn      bool            // with all: may run code chosen at run time (function values, open interface calls, recursion)
+	pkg      string          // with all: package of the repo function whose body gave rise to the effect
+	ghost    bool            // with all: specification-only (ghost) state may change too (explicit "modifies *" of a contract)
+	arrField int             // >0: the location is the memory block arrBase(base, arrField-1) of an array-typed field
 }
 
 // arrayFieldElem: if field i of struct type st is an array, its element type.
@@ -501,7 +501,17 @@ func (ex *Exec) loopClauses(l *Loop) *LoopSpec {
 	if ex.contract == nil || ex.depth > 0 {
 		return nil
 	}
-	return ex.contract.Loops[l.ordinal]
+	ls := ex.contract.Loops[l.ordinal]
+	all := ex.contract.Loops[0]
+	if all == nil {
+		return ls
+	}
+	if ls == nil {
+		return all
+	}
+	m := *ls
+	m.Invariants = append(append([]*Clause{}, all.Invariants...), ls.Invariants...)
+	return &m
 }
 
 // loopVars builds the name environment visible to loop clauses at header hdr,
